@@ -168,6 +168,131 @@ def machine_lines(rec):
     return dict(lines=lines, expects=expects, labels=labels, nan=False)
 
 
+def task_check(rec, driver):
+    """Replays the run on `Model/TaskRun.runTask` of the *translated* programs (the optimizer's run() skeleton, the space's
+    check_limits loop, the sweep) under a scripted oracle: what every update / post step left behind (observed), observer
+    hooks as the identity, the objective as the table of calls observed.  The model then computes by itself the order of the
+    steps, the clipped populations, every sweep (arguments, stored fitness, best agent) and every record; they must be the
+    ones the real run produced.  -> (issues, stats)"""
+    L = lib.load()
+    np = L['np']
+    cfg = rec['cfg']
+    issues, stats = [], dict(replayed=0, steps=0, sweeps=0, records=0, skipped=None)
+    kind = cfg['kind']
+    if kind == 'GP' or cfg['hook'] != 'observer' or rec['error'] is not None or rec.get('init') is None or rec.get('history') is None:
+        stats['skipped'] = 'not-eligible'
+        return issues, stats
+    if kind in SWARM and cfg.get('prior'):
+        stats['skipped'] = 'swarm-with-inherited-memory'      # (the personal-best memory of an earlier task is not observable at start)
+        return issues, stats
+    evs = rec['events']
+    N, gp = cfg['n_iter'], False
+    clips = [e for e in evs if e['t'] == 'clipAll']
+    dumps = [e for e in evs if e['t'] == 'dump']
+    hooks = [(i, e) for i, e in enumerate(evs) if e['t'] == 'hook']
+    if len(clips) != N or len(dumps) != N or len(hooks) != N + 1:
+        stats['skipped'] = 'event-counts'                      # (the C03 oracle judges such runs)
+        return issues, stats
+    snaps = [rec['init']] + [e['snap'] for e in clips] + [e['snap'] for e in dumps] + [e['after'] for _, e in hooks]
+    if any(snap_nan(sn, np) for sn in snaps) or any(e['t'] == 'eval' and (has_nan(e['arg'], np) or fnum(e['val']) != fnum(e['val'])) for e in evs):
+        stats['skipped'] = 'nan'
+        return issues, stats
+    # the objective as a function: one value per argument; values the key embedding cannot hold exactly (integers beyond 2**53,
+    # rationals) are outside what this replay can represent (the direct oracles judge those runs exactly)
+    table = {}
+    for e in evs:
+        if e['t'] == 'eval' and 'raw' in e:
+            try:
+                inexact = xnum(e['raw']) != xnum(fnum(e['raw']))
+            except Exception:
+                inexact = True
+            if inexact:
+                stats['skipped'] = 'values-not-doubles'
+                return issues, stats
+    for e in evs:
+        if e['t'] == 'eval':
+            k_ = enc_pos(e['arg'])
+            v_ = fkey(fnum(e['val']))
+            if table.setdefault(k_, v_) != v_:
+                stats['skipped'] = 'objective-not-a-function'
+                return issues, stats
+    pat = driver.ask(f"skel {kind} {N}")
+    if not pat or pat == 'unknown-kind':
+        stats['skipped'] = 'no-skeleton'
+        return issues, stats
+    refmap = RefMap()
+    lbs, ubs = (np.asarray(cfg['lb'], dtype=float), np.asarray(cfg['ub'], dtype=float))
+    lines = [f"tk.init {kind} {'h' if cfg['space'] == 'hyper' else 's'} {1 if kind in SWARM else 0} {enc_keys(lbs)} {enc_keys(ubs)} "
+             f"{enc_snap_pop(rec['init'], refmap, gp)} {enc_best(rec['init'], refmap)}"]
+    # oracle steps in call order: the last update of iteration t leaves what the space-wide clip found, the last post step
+    # what the record was written from; everything else (observer hooks, earlier steps of a group) is the identity
+    it = -1
+    for j, ch in enumerate(pat):
+        if ch == 'U':
+            if j == 0 or pat[j - 1] != 'U':
+                it += 1
+            last = j + 1 >= len(pat) or pat[j + 1] != 'U'
+            sn = clips[it]['snap'] if (last and 0 <= it < N) else None
+        elif ch == 'P':
+            last = j + 1 >= len(pat) or pat[j + 1] != 'P'
+            sn = dumps[it]['snap'] if (last and 0 <= it < N) else None
+        elif ch == 'H':
+            sn = None
+        else:
+            continue
+        lines.append('tk.step =' if sn is None else f"tk.step {enc_snap_pop(sn, refmap, gp)} {enc_best(sn, refmap)}")
+        stats['steps'] += 1
+    lines += [f'tk.f {k_} {v_}' for k_, v_ in table.items()]
+    lines.append(f'tk.run {N}')
+    outs = driver.ask_many(lines)
+    bad = [(l[:60], o) for l, o in zip(lines[:-1], outs[:-1]) if o != 'ok']
+    if bad:
+        issues.append(dict(what='task-model-mismatch', op='protocol', detail=repr(bad[:2])[:300]))
+        return issues, stats
+    parts = outs[-1].split(' ')
+    if len(parts) != 4:
+        issues.append(dict(what='task-model-mismatch', op='protocol', detail=outs[-1][:200]))
+        return issues, stats
+    stats['replayed'] = 1
+    k_steps, args_s, dumps_s, best_s = parts
+    # (1) every sweep evaluated, in order, what the model says it evaluates
+    n_real = [len(e['after']['pop']) for _, e in hooks]
+    model_sweeps = [] if args_s == '-' else args_s.split('/')
+    for hk, (i, e) in enumerate(hooks):
+        real_args = []
+        k2 = i + 1
+        while len(real_args) < n_real[hk] and k2 < len(evs) and evs[k2]['t'] not in ('hook', 'dump', 'clipAll'):
+            if evs[k2]['t'] == 'eval':
+                real_args.append(enc_pos(evs[k2]['arg']))
+            k2 += 1
+        stats['sweeps'] += 1
+        m_ = model_sweeps[hk] if hk < len(model_sweeps) else None
+        if m_ != ('|'.join(real_args) if real_args else '-'):
+            issues.append(dict(what='task-model-mismatch', op='sweep-arguments', sweep=hk, model=str(m_)[:200], real='|'.join(real_args)[:200]))
+            return issues, stats
+    # (2) every record is the one the model writes
+    model_dumps = [] if dumps_s == '-' else dumps_s.split('/')
+    if len(model_dumps) != N:
+        issues.append(dict(what='task-model-mismatch', op='record-count', model=len(model_dumps), real=N))
+        return issues, stats
+    for t, (md, e) in enumerate(zip(model_dumps, dumps)):
+        ags_s, best_rec = md.split('~')
+        live = e['live']
+        if 'agents' in live:
+            real = '|'.join(f"{enc_pos(np.asarray(p_, dtype=float))}:{fkey(fnum(f_))}" for p_, f_ in live['agents']) or '-'
+            stats['records'] += 1
+            if real != ags_s:
+                issues.append(dict(what='task-model-mismatch', op='agents-record', t=t, model=ags_s[:200], real=real[:200]))
+                return issues, stats
+        if 'best_agent' in live:
+            p_, f_ = live['best_agent']
+            real = f"{enc_pos(np.asarray(p_, dtype=float))}:{fkey(fnum(f_))}"
+            if real != best_rec:
+                issues.append(dict(what='task-model-mismatch', op='best-record', t=t, model=best_rec[:200], real=real[:200]))
+                return issues, stats
+    return issues, stats
+
+
 def machine_check(rec, driver):
     """replays the history on the Lean machine; -> (issues, stats)"""
     ml = machine_lines(rec)
